@@ -37,6 +37,8 @@ def run(ctx):
         pass
     from rules import c11_ringhash
     c11_ringhash.run(ctx, crate)
+    from rules import c11_centre
+    c11_centre.run(ctx, crate)
     ns = (1, 2, 3, 4) if ctx.tier == "quick" else (1, 2, 3, 4, 5, 6, 7)
     for cfg in ("rel", "dbg"):
         c11_ringhash.table(ctx, ctx.crate(cfg), cfg, ns)
